@@ -554,6 +554,9 @@ func init() {
 			"Server).runInner/chHandleHTTPChannel": "no reply when the connection is already gone: the requester is that connection's reader goroutine, which has exited before the connection is removed from s.conns (ServerConn.run waits for the reader before closeConn), and the GET side waits with a timer and its context",
 		})
 		c13CallbackOrder(c)
+		triggerBeforeWaitRule(c, "C13/TRIGGER-BEFORE-WAIT")
+		clientCloseRule(c, "C13/CLIENT-CLOSE")
+		udpDeliveryLockRule(c, "C13/UDP-DELIVERY-LOCK")
 	}
 }
 
@@ -610,4 +613,217 @@ func c13CallbackOrder(c *Ctx) {
 		return ok && ci.Call.StaticCallee() != nil && ci.Call.StaticCallee().Name() == "wait"
 	})
 	r.Check(connCB != nil && wait != nil && instrDominates(wait, connCB), "C13/CALLBACK-ORDER", "ServerConn.run joins its reader before OnConnClose", p.Pos(scRun.Pos()), "reader.wait() dominates the notification", "OnConnClose can be delivered while the reader goroutine is still running")
+}
+
+// ---------------------------------------------------------------------------
+// C13/TRIGGER-BEFORE-WAIT, C13/CLIENT-CLOSE, C13/UDP-DELIVERY-LOCK
+// ---------------------------------------------------------------------------
+
+// waitTriggers: for each function that waits for a goroutine to end, what must
+// have been fired on every path before the wait (otherwise the goroutine it
+// waits for is never told to stop and Close hangs).
+var waitTriggers = []struct {
+	pkg, fn, what string
+	pred          func(in ssa.Instruction) bool
+}{
+	{"", "serverUDPListener.close", "pc.Close() (unblocks ReadFrom)", func(in ssa.Instruction) bool { return invokeOn(in, "Close", ".pc") }},
+	{"", "clientUDPListener.stop", "pc.SetReadDeadline(now) (unblocks ReadFrom)", func(in ssa.Instruction) bool { return invokeOn(in, "SetReadDeadline", ".pc") }},
+	{"", "Client.Close", "ctxCancel()", func(in ssa.Instruction) bool { return callsFieldFunc(in, "ctxCancel") }},
+	{"internal/asyncprocessor", "Processor.Close", "ctxCancel() and buffer.Close()", func(in ssa.Instruction) bool {
+		return core.IsCallTo(in, core.Abs("pkg/ringbuffer")+".RingBuffer.Close")
+	}},
+	{"pkg/rtpreceiver", "Receiver.Close", "close(terminate)", func(in ssa.Instruction) bool { return closesChan(in, "terminate") }},
+	{"pkg/rtpsender", "Sender.Close", "close(terminate)", func(in ssa.Instruction) bool { return closesChan(in, "terminate") }},
+}
+
+func invokeOn(in ssa.Instruction, method, recvSuffix string) bool {
+	ci, ok := in.(*ssa.Call)
+	return ok && ci.Call.IsInvoke() && ci.Call.Method.Name() == method && strings.HasSuffix(core.PathOf(ci.Call.Value), recvSuffix)
+}
+
+func callsFieldFunc(in ssa.Instruction, field string) bool {
+	ci, ok := in.(*ssa.Call)
+	return ok && !ci.Call.IsInvoke() && ci.Call.StaticCallee() == nil && strings.HasSuffix(core.PathOf(ci.Call.Value), "."+field)
+}
+
+func closesChan(in ssa.Instruction, suffix string) bool {
+	ci, ok := in.(*ssa.Call)
+	if !ok {
+		return false
+	}
+	bi, ok := ci.Call.Value.(*ssa.Builtin)
+	return ok && bi.Name() == "close" && strings.HasSuffix(core.PathOf(ci.Call.Args[0]), "."+suffix)
+}
+
+func triggerBeforeWaitRule(c *Ctx, rule string) {
+	p, r := c.P, c.R
+	r.Rule(rule, "every function that waits for a goroutine to end fires, on every path before the wait, the event that makes that goroutine return (close the socket it reads, cancel its context, close its terminate channel); the connection goroutines close the socket before joining their reader", len(waitTriggers)+2)
+	for _, wt := range waitTriggers {
+		fn := p.Func(wt.pkg, wt.fn)
+		if !r.Anchor(rule, wt.fn, fn != nil) {
+			continue
+		}
+		n := 0
+		for _, op := range chanOpsOf(fn) {
+			if op.kind != "recv" || chanRole(op.ch) != "done" {
+				continue
+			}
+			n++
+			miss, path, _ := core.PathAvoiding(fn, nil, func(x ssa.Instruction) bool { return x == op.in }, wt.pred)
+			if miss {
+				r.FailPath(rule, wt.fn+" fires "+wt.what+" before waiting", p.Pos(op.in.Pos()), "the wait can be reached without "+wt.what+": the goroutine waited for is never told to stop and Close blocks for ever", core.BlockPath(p, fn, path))
+			} else {
+				r.OK(rule, wt.fn+" fires "+wt.what+" before waiting", p.Pos(op.in.Pos()), "on every path")
+			}
+		}
+		if n == 0 {
+			r.Fail(rule, wt.fn+" waits", p.Pos(fn.Pos()), "no receive on a done channel found")
+		}
+	}
+	// ServerConn.run: socket closed (or handed to the tunnel) before reader.wait()
+	if fn := p.Func("", "ServerConn.run"); r.Anchor(rule, "ServerConn.run", fn != nil) {
+		wait := findCall(fn, func(c *ssa.Call) bool { return c.Call.StaticCallee() != nil && c.Call.StaticCallee().Name() == "wait" })
+		if wait == nil {
+			r.Fail(rule, "ServerConn.run joins its reader", p.Pos(fn.Pos()), "reader.wait() not found")
+		} else {
+			miss, path, _ := core.PathAvoidingE(fn, nil, func(x ssa.Instruction) bool { return x == ssa.Instruction(wait) }, func(x ssa.Instruction) bool { return invokeOn(x, "Close", ".nconn") }, func(a, b *ssa.BasicBlock) bool {
+				iff, ok := a.Instrs[len(a.Instrs)-1].(*ssa.If)
+				if !ok {
+					return false
+				}
+				ci, ok := iff.Cond.(*ssa.Call)
+				return ok && core.CalleeObjName(ci) == "errors.Is" && b == a.Succs[0]
+			})
+			if miss {
+				r.FailPath(rule, "ServerConn.run closes the socket before joining its reader", p.Pos(wait.Pos()), "the reader goroutine blocks in Read on a socket nobody closes", core.BlockPath(p, fn, path))
+			} else {
+				r.OK(rule, "ServerConn.run closes the socket before joining its reader", p.Pos(wait.Pos()), "nconn.Close() (or tunnel upgrade) on every path before reader.wait()")
+			}
+		}
+	}
+	// Client.doClose: nconn.Close() before reader.close()
+	if fn := p.Func("", "Client.doClose"); r.Anchor(rule, "Client.doClose", fn != nil) {
+		rc := findCall(fn, func(c *ssa.Call) bool {
+			return c.Call.StaticCallee() != nil && c.Call.StaticCallee().Name() == "close" && strings.Contains(fnShort(c.Call.StaticCallee()), "clientReader")
+		})
+		if rc == nil {
+			r.Fail(rule, "Client.doClose joins its reader", p.Pos(fn.Pos()), "reader.close() not found")
+		} else {
+			miss, path, _ := core.PathAvoiding(fn, nil, func(x ssa.Instruction) bool { return x == ssa.Instruction(rc) }, func(x ssa.Instruction) bool { return invokeOn(x, "Close", ".nconn") })
+			if miss {
+				r.FailPath(rule, "Client.doClose closes the socket before joining its reader", p.Pos(rc.Pos()), "the reader goroutine blocks in Read on a socket nobody closes", core.BlockPath(p, fn, path))
+			} else {
+				r.OK(rule, "Client.doClose closes the socket before joining its reader", p.Pos(rc.Pos()), "nconn.Close() on every path before reader.close()")
+			}
+		}
+	}
+}
+
+// clientCloseRule: after doClose no socket of the client remains.
+func clientCloseRule(c *Ctx, rule string) {
+	p, r := c.P, c.R
+	r.Rule(rule, "Client.doClose leaves no control socket behind: every path to its return either calls nconn.Close() or has seen nconn == nil; every set-up media is closed; Client.run calls doClose after its loop", 3)
+	fn := p.Func("", "Client.doClose")
+	run := p.Func("", "Client.run")
+	if !r.Anchor(rule, "Client.doClose / Client.run", fn != nil && run != nil) {
+		return
+	}
+	isClose := func(x ssa.Instruction) bool { return invokeOn(x, "Close", ".nconn") }
+	miss, path, _ := core.PathAvoidingE(fn, nil, core.IsReturn, isClose, func(a, b *ssa.BasicBlock) bool {
+		// the edge on which c.nconn is known to be nil
+		iff, ok := a.Instrs[len(a.Instrs)-1].(*ssa.If)
+		if !ok || a.Succs[0] == a.Succs[1] {
+			return false
+		}
+		bo, ok := iff.Cond.(*ssa.BinOp)
+		if !ok || !(isNilConst(bo.Y) || isNilConst(bo.X)) {
+			return false
+		}
+		other := bo.X
+		if isNilConst(bo.X) {
+			other = bo.Y
+		}
+		if !strings.HasSuffix(core.PathOf(other), ".nconn") {
+			return false
+		}
+		if bo.Op == token.NEQ {
+			return b == a.Succs[1]
+		}
+		return bo.Op == token.EQL && b == a.Succs[0]
+	})
+	// the first `nconn != nil && baseURL != nil` test does not end the function: a nil edge there is still fine (nconn is nil)
+	if miss {
+		r.FailPath(rule, "Client.doClose closes the control socket", p.Pos(fn.Pos()), "doClose can return with an open control connection (not closed, not known to be nil): the socket is leaked and the peer sees the connection as established", core.BlockPath(p, fn, path))
+	} else {
+		r.OK(rule, "Client.doClose closes the control socket", p.Pos(fn.Pos()), "every path calls nconn.Close() or has nconn == nil")
+	}
+	// medias closed
+	mclose := false
+	for _, b := range fn.Blocks {
+		for _, in := range b.Instrs {
+			if ci, ok := in.(*ssa.Call); ok && ci.Call.StaticCallee() != nil && ci.Call.StaticCallee().Name() == "close" && strings.Contains(fnShort(ci.Call.StaticCallee()), "clientMedia") {
+				mclose = true
+			}
+		}
+	}
+	r.Check(mclose, rule, "Client.doClose closes every set-up media", p.Pos(fn.Pos()), "range setuppedMedias { cm.close() }", "the medias (UDP listeners, receivers) are no longer closed")
+	// run: doClose after runInner
+	ri := p.Func("", "Client.runInner")
+	var riCall ssa.Instruction
+	for _, b := range run.Blocks {
+		for _, in := range b.Instrs {
+			if ci, ok := in.(*ssa.Call); ok && ci.Call.StaticCallee() == ri {
+				riCall = in
+			}
+		}
+	}
+	okRun := false
+	if riCall != nil {
+		m2, _, _ := core.PathAvoiding(run, riCall, core.IsReturn, func(x ssa.Instruction) bool {
+			ci, ok := x.(*ssa.Call)
+			return ok && ci.Call.StaticCallee() == fn
+		})
+		okRun = !m2
+	}
+	r.Check(okRun, rule, "Client.run tears down after its loop", p.Pos(run.Pos()), "doClose() on every path after runInner", "the client goroutine can end without doClose()")
+}
+
+// udpDeliveryLockRule: removeClient must wait for an in-flight delivery.
+func udpDeliveryLockRule(c *Ctx, rule string) {
+	p, r := c.P, c.R
+	r.Rule(rule, "the server UDP listener invokes the registered callback while holding clientsMutex (shared), so that removeClient (exclusive) returns only after an in-flight packet has been delivered: no packet callback runs after the session has been stopped", 1)
+	run := p.Func("", "serverUDPListener.run")
+	if !r.Anchor(rule, "serverUDPListener.run", run != nil) {
+		return
+	}
+	n := 0
+	for _, fn := range append([]*ssa.Function{run}, run.AnonFuncs...) {
+		states := core.LockStates(fn, core.LockSet{})
+		for _, b := range fn.Blocks {
+			for _, in := range b.Instrs {
+				ci, ok := in.(*ssa.Call)
+				if !ok || ci.Call.IsInvoke() || ci.Call.StaticCallee() != nil {
+					continue
+				}
+				ex, ok := ci.Call.Value.(*ssa.Extract)
+				if !ok {
+					continue
+				}
+				if lk, ok := ex.Tuple.(*ssa.Lookup); !ok || !strings.HasSuffix(core.PathOf(lk.X), ".clients") {
+					continue
+				}
+				n++
+				held := false
+				for k := range states[in] {
+					if strings.HasSuffix(k, ".clientsMutex") {
+						held = true
+					}
+				}
+				r.Check(held, rule, "serverUDPListener.run delivers under clientsMutex", p.Pos(ci.Pos()), "callback invoked with the read lock held", "the callback is invoked after the lock was released: removeClient no longer waits for an in-flight packet, which can be delivered after OnSessionClose")
+			}
+		}
+	}
+	if n == 0 {
+		r.Fail(rule, "serverUDPListener.run delivery", p.Pos(run.Pos()), "delivery call not found")
+	}
 }
